@@ -54,7 +54,13 @@ func (c *Client) handshake(ctx context.Context) error {
 			return errors.Wrap(err, "flush")
 		}
 
+		// The server may take as long as the handshake timeout allows to answer
+		// (e.g. idle cloud instances waking up), so the single packet read
+		// timeout does not apply to the hello: only the deadline of ctx does.
+		readTimeout := c.readTimeout
+		c.readTimeout = 0
 		code, err := c.packet(ctx)
+		c.readTimeout = readTimeout
 		if err != nil {
 			return errors.Wrap(err, "packet")
 		}
